@@ -137,3 +137,36 @@ def predictSpec {ρ σ : Type} (rows : List ρ) (routing : List Nat)
     cal (mine.map (fun r => (score f r, target r))) (score f x.1))
 
 end Mk.Brew
+
+namespace Mk.Brew
+
+/-! ## Decidable checker of the C02 clauses on *observed* folds / training sets / routing
+(used by the driver on what the real `brew` did; the clauses are those of the theorems). -/
+
+def foldOf (fs : List (List Nat)) (i : Nat) : Nat := fs.findIdx (fun fold => fold.contains i)
+
+def sameKeySameFold (hashes : List Nat) (fs : List (List Nat)) : Bool :=
+  (List.range hashes.length).all (fun i => (List.range hashes.length).all (fun j =>
+    !(hashes.getD i 0 == hashes.getD j 0) || foldOf fs i == foldOf fs j))
+
+def isPartition (n : Nat) (fs : List (List Nat)) : Bool :=
+  let flat := fs.flatten
+  flat.length == n && (List.range n).all (fun i => flat.contains i)
+
+def trainOk (hashes : List Nat) (fold train : List Nat) (capped : Bool) : Bool :=
+  train.eraseDups.length == train.length &&
+  train.all (fun i => decide (i < hashes.length) && !fold.contains i &&
+    fold.all (fun j => !(hashes.getD i 0 == hashes.getD j 0))) &&
+  (capped || train.length + fold.length == hashes.length)
+
+/-- names of the violated clauses (empty = all hold) -/
+def brewSpecB (folds : Nat) (hashes : List Nat) (fs trains : List (List Nat)) (capped : Bool)
+    (routing : List Nat) : List String :=
+  (if fs.length == folds then [] else ["fold-count"]) ++
+  (if isPartition hashes.length fs then [] else ["not-a-partition"]) ++
+  (if sameKeySameFold hashes fs then [] else ["spectrum-split-across-folds"]) ++
+  (if trains.length == fs.length && (fs.zip trains).all (fun ft => trainOk hashes ft.1 ft.2 capped)
+    then [] else ["training-set-not-disjoint-from-held-out-fold"]) ++
+  (if routing == (List.range hashes.length).map (foldOf fs) then [] else ["routing"])
+
+end Mk.Brew
